@@ -648,7 +648,7 @@ type pop struct {
 func runPkt(run *vgen.Run, r *vgen.Rand, id int) {
 	batch, size := dataplane.VerifPktRingSizes()
 	pr := dataplane.VerifNewPktRing()
-	n := r.Range(10, 260)
+	n := r.Range(10, 160)
 	writeBias := r.Range(3, 8) // of 10
 	closeAt := -1
 	if r.Chance(2, 3) {
@@ -864,7 +864,7 @@ func main() {
 	run.CheckFn = "RingLin.check"
 	run.DiagFn = "RingLin.diag"
 	run.CaseType = "RingLin.case"
-	run.ShardSize = 280
+	run.ShardSize = 140
 	run.Rule = "A: sequential op lists on a real ringbuf.Ring (cap 0..16, batch sizes 0..21, empty or pre-filled, " +
 		"blocking flag only where the call cannot block, Close, then drained), exact (count, blocked, entries) per call; " +
 		"non-trivial = more entries written than the capacity (the indices wrapped) and >= 2 transfers. " +
@@ -885,7 +885,7 @@ func main() {
 		}
 		runSeq(run, s, id-1, "seq-boundary")
 	}
-	ns := run.Count(900, 150000)
+	ns := run.Count(600, 60000)
 	for i := 0; i < ns; i++ {
 		r := rng.Fork(uint64(i))
 		id++
@@ -897,7 +897,7 @@ func main() {
 	}
 
 	// C. pktRing
-	np := run.Count(60, 3000)
+	np := run.Count(40, 3000)
 	for i := 0; i < np; i++ {
 		r := rng.Fork(uint64(5000000 + i))
 		id++
